@@ -13,6 +13,9 @@ func (e *Engine) sameIdentity(st *State, a, b Val) string {
 		if y, ok := b.(OpaqueV); ok {
 			return eq(x.T, y.T)
 		}
+		if _, ok := b.(FuncV); ok {
+			return e.fresh("samefn", "Bool")
+		}
 	case MapV:
 		if y, ok := b.(MapV); ok {
 			if x.Cell != nil && x.Cell == y.Cell {
@@ -53,6 +56,21 @@ func (e *Engine) sameIdentity(st *State, a, b Val) string {
 				return eq(x.Nil, y.Nil)
 			}
 			return and(x.Nil, y.Nil)
+		}
+	case FuncV:
+		if y, ok := b.(FuncV); ok {
+			// two function values are the same when they are the same function over the same captured variables; two
+			// different function literals (or functions) never are
+			if x.Fn != y.Fn {
+				return "false"
+			}
+			if len(x.Bind) == 0 && len(y.Bind) == 0 {
+				return "true"
+			}
+			return e.fresh("samefn", "Bool")
+		}
+		if _, ok := b.(OpaqueV); ok {
+			return e.fresh("samefn", "Bool")
 		}
 	case OptV:
 		if y, ok := b.(OptV); ok {
